@@ -460,6 +460,34 @@ func TestC10Close(t *testing.T) {
 		if act["peerCloses"] && P != nil {
 			go func() { _ = P.Close() }()
 		}
+		// silent peers that connect at the very moment of Close: each is either refused or, if the
+		// listener still accepted it, disconnected by Close like the earlier one
+		var lateConns []net.Conn
+		var lateMu sync.Mutex
+		lateDone := make(chan struct{})
+		nlate := 0
+		if act["silentPeer"] && raceStart {
+			nlate = rapid.IntRange(0, 6).Draw(t, "silentPeersDuringClose")
+		}
+		go func() {
+			defer close(lateDone)
+			for i := 0; i < nlate; i++ {
+				c, err := net.DialTimeout(netw, strings.TrimPrefix(strings.TrimPrefix(addr, "tcp://"), "ipc://"), time.Second)
+				if err == nil {
+					lateMu.Lock()
+					lateConns = append(lateConns, c)
+					lateMu.Unlock()
+				}
+				for t0 := time.Now(); time.Since(t0) < 30*time.Microsecond; {
+				}
+			}
+		}()
+		defer func() {
+			<-lateDone
+			for _, c := range lateConns {
+				_ = c.Close()
+			}
+		}()
 		// Close
 		closeErr := make(chan error, 1)
 		t0 := time.Now()
@@ -588,6 +616,26 @@ func TestC10Close(t *testing.T) {
 					break
 				}
 			}
+		}
+		<-lateDone
+		lateMu.Lock()
+		late := append([]net.Conn(nil), lateConns...)
+		lateMu.Unlock()
+		for i, c := range late {
+			_ = c.SetReadDeadline(time.Now().Add(prompt))
+			buf := make([]byte, 64)
+			for {
+				_, err := c.Read(buf)
+				if err != nil {
+					if ne, ok := err.(net.Error); ok && ne.Timeout() {
+						fail("connection-leak:silent-peer", "silent connection %d of %d made while Socket.Close was running was accepted and is still open %v after Close returned", i, len(late), prompt)
+					}
+					break
+				}
+			}
+		}
+		if len(late) > 0 {
+			stats.Class("silent_peers_connecting_during_close")
 		}
 		// close everything else that is a mangos socket
 		for _, o := range others {
